@@ -53,4 +53,10 @@ TEXT = {
         "level_text": "Generated-input search: messages (any CID, 0..32 address byte strings incl. unregistered protocol codes and empty strings, extra data to 4 KiB, optional OrigPeer) round-trip through CBOR and JSON; the 3/4-field form is checked; GetAddrs is compared with the known-protocol sublist; httpsender Send/SendJson are run against a loopback capture server and the captured body must decode to the original with /p2p/<publisher> appended; announce.Send is checked with recording senders. Decoder: mutated encodings with hostile CBOR headers (lengths 2^63, 2^64-1, 2 MiB+-1, 8192+-1, indefinite markers): no panic, error or re-encode fixpoint, TotalAlloc delta within the fixed caps. Thorough adds native fuzzing.",
         "level_note": "Trusted: runtime.MemStats as allocation meter; loopback HTTP. The p2psender (gossipsub) path is exercised by C09's pubsub cases only. Messages whose every address has an unknown protocol may go on the wire with a bare /p2p/<id> address or none: not asserted.",
     },
+    "C19": {
+        "engine": "h23",
+        "technique": "property-based testing (rapid): write/read round trip through a loopback server running the documented handler idiom; negotiation model; API-error round trip",
+        "level_text": "Generated-input search: result lists (0..20, occasionally 300..900 results; nil/empty/binary context IDs and metadata; 0..3 addresses) are written through the response writer and read back by client.Find or raw requests with every key form (base58 / hex multihash, CIDv0, CIDv1 in three bases) and Accept variant; JSON mode is compared result by result, streaming mode line by line; empty sets must be 404 on the wire and an empty response for the client. Accept headers (supported / unsupported / malformed elements, several header values) x preferJson x request paths are checked against a negotiation model (must-reject => 4xx *apierror.Error whose status and message survive the wire). API errors round-trip through EncodeError/DecodeError.",
+        "level_note": "Trusted: net/http loopback transport, mime.ParseMediaType as the definition of 'malformed'. Hex keys that are also valid base58 are skipped (ambiguous in the API; counted). Headers mixing supported and malformed elements are not asserted.",
+    },
 }
